@@ -484,6 +484,12 @@ public:
 	bool operator!=(const std::string& rhs) const { return !operator==(rhs); }
 };
 
+#ifdef OUSNIUS_NIFLY_VERIF
+// Verification hooks (off unless OUSNIUS_NIFLY_VERIF is defined): report the object being serialised.
+extern "C" void nifly_verif_ref_hook(const void* niRef);
+extern "C" void nifly_verif_str_hook(const void* niStringRef, int writing);
+#endif
+
 class NiStringRef {
 private:
 	std::string str;
@@ -772,7 +778,12 @@ public:
 	NiBlockRef() {}
 	NiBlockRef(const uint32_t id) { NiRef::index = id; }
 
-	void Sync(NiStreamReversible& stream) { stream.Sync(base::index); }
+	void Sync(NiStreamReversible& stream) {
+#ifdef OUSNIUS_NIFLY_VERIF
+		nifly_verif_ref_hook(static_cast<const NiRef*>(this));
+#endif
+		stream.Sync(base::index);
+	}
 };
 
 template<typename T>
